@@ -53,13 +53,13 @@ def execute(beh, kind, mode, precision, frame, chain, seed, step=None):
     import scared
     rs = np.random.RandomState(seed)
     pp = pl.preprocesses()
-    a, mk = pl.build(kind, mode, precision, convergence_step=step, layout='CTF'[seed % 3], declared=(5 if seed % 4 == 1 else None))
+    a, mk = pl.build(kind, mode, precision, convergence_step=step, layout='CTF'[seed % 3], declared=(5 if seed % 4 == 1 else None), wide=(seed % 4 == 3))
     rec = pl.Recorder(a)
     sets = []
     id0 = 0
     scared.set_batch_size(int(beh['base']))
     for n in beh['ns']:
-        ths, samples, v, ids = pl.make_set(rs, n, 6, 2, id0)
+        ths, samples, v, ids = pl.make_set(rs, n, 6, 2, id0, sample_dtype=('>i2' if kind in ('CPA', 'DPA') and seed % 5 == 2 else None))
         id0 += n
         cont = scared.Container(ths, frame=pl.FRAMES[frame], preprocesses=[pp[c] for c in chain])
         sets.append((samples, v, ids))
@@ -221,14 +221,15 @@ def run(chk):
         nb = 0
         per = 10 if q else 40
         runs = []
+        combos = [(f_, c_) for f_ in frames for c_ in pl.CHAINS]
+        rng.shuffle(combos)
         for ki, kind in enumerate(pl.KINDS):
             for mode in ('attack', 'reverse'):
                 for j in range(per):
                     use_step = mode == 'attack' and j % 2 == 1          # every second attack run also asks for convergence traces
                     beh = cbehs[(nb // 2) % len(cbehs)] if use_step else behs[(nb * 7919) % len(behs)]
                     nb += 1
-                    frame = frames[nb % len(frames)]
-                    chain = pl.CHAINS[(nb // 2) % len(pl.CHAINS)]
+                    frame, chain = combos[nb % len(combos)]          # every (frame, chain) pair is used (the list is walked, not sampled)
                     prec = 'float64' if nb % 3 else 'float32'
                     if kind == 'MIA' and nb % 2 == 0:
                         prec = 'uint32'
